@@ -518,10 +518,10 @@ func sortSliceModel(e *Exec, fr *frame, st *State, ci ssa.CallInstruction, args 
 	e.ctx.decls = append(e.ctx.decls, fmt.Sprintf("(declare-fun %s (Int) Int)", pi), fmt.Sprintf("(declare-fun %s (Int) Int)", pinv))
 	off, n := s.L[1].S, s.L[2].S
 	st.pc = append(st.pc,
-		Term{fmt.Sprintf("(forall ((i Int)) (=> (and (<= 0 i) (< i %s)) (and (<= 0 (%s i)) (< (%s i) %s) (= (%s (%s i)) i) (= (select %s %s) (select %s %s))))))",
+		Term{fmt.Sprintf("(forall ((i Int)) (=> (and (<= 0 i) (< i %s)) (and (<= 0 (%s i)) (< (%s i) %s) (= (%s (%s i)) i) (= (select %s %s) (select %s %s)))))",
 			n, pi, pi, n, pinv, pi, newCells.S, CellIdx(s.L[1], Term{"i", SInt}).S, oldCells.S, CellIdx(s.L[1], Term{"(" + pi + " i)", SInt}).S), SBool},
-		Term{fmt.Sprintf("(forall ((j Int)) (=> (and (<= 0 j) (< j %s)) (and (<= 0 (%s j)) (< (%s j) %s) (= (%s (%s j)) j))))",
-			n, pinv, pinv, n, pi, pinv), SBool},
+		Term{fmt.Sprintf("(forall ((j Int)) (=> (and (<= 0 j) (< j %s)) (and (<= 0 (%s j)) (< (%s j) %s) (= (%s (%s j)) j) (= (select %s %s) (select %s %s)))))",
+			n, pinv, pinv, n, pi, pinv, newCells.S, CellIdx(s.L[1], Term{"(" + pinv + " j)", SInt}).S, oldCells.S, CellIdx(s.L[1], Term{"j", SInt}).S), SBool},
 		Term{fmt.Sprintf("(forall ((i Int)) (=> (or (< i %s) (>= i (+ %s %s))) (= (select %s i) (select %s i))))", off, off, n, newCells.S, oldCells.S), SBool})
 	e.heapSet(st, name, Store(A, s.L[0], newCells))
 	// sortedness from the closure's contract: forall i < j: !less(j, i)
@@ -531,7 +531,7 @@ func sortSliceModel(e *Exec, fr *frame, st *State, ci ssa.CallInstruction, args 
 		return SV{T: rt}
 	}
 	e.ctx.n++
-	qi, qj := Term{sym(fmt.Sprintf("i!s%d", e.ctx.n)), SInt}, Term{sym(fmt.Sprintf("j!s%d", e.ctx.n)), SInt}
+	qi, qj := Term{sym(fmt.Sprintf("i!q.s%d", e.ctx.n)), SInt}, Term{sym(fmt.Sprintf("j!q.s%d", e.ctx.n)), SInt}
 	vars := map[string]SV{}
 	fn := less.Fn.Fn
 	vars[fn.Params[0].Name()] = scalar(types.Typ[types.Int], qj)
@@ -543,7 +543,7 @@ func sortSliceModel(e *Exec, fr *frame, st *State, ci ssa.CallInstruction, args 
 			}
 		}
 	}
-	r := e.ctx.fresh("less", SBool)
+	r := e.ctx.fresh("less!q", SBool)
 	vars["r"] = scalar(types.Typ[types.Bool], r)
 	env := &specEnv{into: st, st: st, old: st, vars: vars, oldVars: vars, pkg: pkgOf(fn)}
 	var defs []Term
